@@ -372,23 +372,29 @@ func modeSrc(args []string) {
 	fs.Parse(args)
 	b, err := os.ReadFile(*file)
 	if err != nil {
-		fmt.Println("read-error", err)
+		fmt.Fprintln(realStdout, "read-error", err)
 		os.Exit(2)
 	}
 	res := compileReal(string(b))
 	if res.circ == nil {
-		fmt.Println("compile-" + res.err)
+		fmt.Fprintln(realStdout, "compile-"+res.err)
 		return
 	}
-	fmt.Println(evalAll(res.circ, parseTuples(*in)))
+	fmt.Fprintln(realStdout, evalAll(res.circ, parseTuples(*in)))
 }
+
+var realStdout *os.File
 
 func main() {
 	if len(os.Args) < 2 {
 		fmt.Fprintln(os.Stderr, "usage: c03 gen|witness|testsuite|src ...")
 		os.Exit(2)
 	}
-	// the compiler logs warnings to stdout; keep our stdout clean
+	// the compiler logs errors and warnings to os.Stdout; keep ours clean
+	realStdout = os.Stdout
+	if dn, err := os.OpenFile(os.DevNull, os.O_WRONLY, 0); err == nil {
+		os.Stdout = dn
+	}
 	switch os.Args[1] {
 	case "gen":
 		modeGen(os.Args[2:])
